@@ -4,6 +4,7 @@ import Mathlib.Tactic.Linarith
 import Mathlib.Tactic.FieldSimp
 import Mathlib.Tactic.Ring
 import Mathlib.Tactic.LinearCombination
+import Mathlib.Tactic.Positivity
 /-
 C01 (continued) - the all-smooth-fields quantifier for the one-dimensional building blocks.
 The polynomial statements of `Props/C01.lean` are lifted to every sufficiently smooth real
@@ -147,5 +148,75 @@ theorem cart_d1_taylor (f : ℝ → ℝ) (hf : ContDiff ℝ 3 f) (M : ℝ) (hM :
   have e2 : x0 + ((i:ℝ) + -1) * h = x0 + (i:ℝ) * h - h := by ring
   rw [e1, e2]
   exact this
+
+/-- **polar Laplacian on every C4 radial field**: at every cell with `r ≠ 0` the error against
+`f'' + f'/r` is at most `M4 h²/12 + M3 h²/(6 |r|)` - quadratic in `h` at any fixed distance from the
+axis, for all smooth fields (not only polynomials) -/
+theorem polar_laplace_taylor (f : ℝ → ℝ) (hf : ContDiff ℝ 4 f) (M3 M4 : ℝ)
+    (hM3 : ∀ y, |iteratedDeriv 3 f y| ≤ M3) (hM4 : ∀ y, |iteratedDeriv 4 f y| ≤ M4)
+    (x0 h : ℝ) (hh : h ≠ 0) (i : Int) (hr : x0 + (i:ℝ) * h ≠ 0) :
+    |polarLaplace (fun k => x0 + (k:ℝ) * h) h (sampleFun f x0 h) i
+        - (iteratedDeriv 2 f (x0 + (i:ℝ) * h) + iteratedDeriv 1 f (x0 + (i:ℝ) * h) / (x0 + (i:ℝ) * h))|
+      ≤ M4 * h^2 / 12 + M3 * h^2 / (6 * |x0 + (i:ℝ) * h|) := by
+  set r := x0 + (i:ℝ) * h with hrdef
+  have h2 := d2_fun_taylor f hf M4 hM4 r h hh
+  have h1 := d1_central_fun_taylor f (hf.of_le (by norm_num)) M3 hM3 r h hh
+  have e1 : x0 + ((i:ℝ) + 1) * h = r + h := by rw [hrdef]; ring
+  have e2 : x0 + ((i:ℝ) - 1) * h = r - h := by rw [hrdef]; ring
+  have split : polarLaplace (fun k => x0 + (k:ℝ) * h) h (sampleFun f x0 h) i
+      - (iteratedDeriv 2 f r + iteratedDeriv 1 f r / r)
+      = ((f (r + h) - 2 * f r + f (r - h)) / (h * h) - iteratedDeriv 2 f r)
+        + ((f (r + h) - f (r - h)) / (2 * h) - iteratedDeriv 1 f r) / r := by
+    simp only [polarLaplace, sampleFun, List.getD_cons_zero]
+    push_cast
+    rw [e1, e2, ← hrdef]
+    field_simp
+    ring
+  rw [split]
+  have hrpos : 0 < |r| := abs_pos.mpr hr
+  calc _ ≤ |(f (r + h) - 2 * f r + f (r - h)) / (h * h) - iteratedDeriv 2 f r|
+          + |((f (r + h) - f (r - h)) / (2 * h) - iteratedDeriv 1 f r) / r| := abs_add_le _ _
+    _ ≤ M4 * h^2 / 12 + M3 * h^2 / (6 * |r|) := by
+        have : |((f (r + h) - f (r - h)) / (2 * h) - iteratedDeriv 1 f r) / r| ≤ M3 * h^2 / (6 * |r|) := by
+          rw [abs_div, div_le_div_iff₀ hrpos (by positivity)]
+          have := mul_le_mul_of_nonneg_right h1 hrpos.le
+          nlinarith [this, hrpos]
+        linarith
+
+/-- **plain spherical Laplacian on every C4 radial field**: error against `f'' + 2f'/r` at most
+`M4 h²/12 + M3 h²/(3 |r|)` -/
+theorem sph_laplace_plain_taylor (f : ℝ → ℝ) (hf : ContDiff ℝ 4 f) (M3 M4 : ℝ)
+    (hM3 : ∀ y, |iteratedDeriv 3 f y| ≤ M3) (hM4 : ∀ y, |iteratedDeriv 4 f y| ≤ M4)
+    (x0 h : ℝ) (hh : h ≠ 0) (i : Int) (hr : x0 + (i:ℝ) * h ≠ 0) :
+    |sphLaplace false (fun k => x0 + (k:ℝ) * h) h (sampleFun f x0 h) i
+        - (iteratedDeriv 2 f (x0 + (i:ℝ) * h) + 2 * iteratedDeriv 1 f (x0 + (i:ℝ) * h) / (x0 + (i:ℝ) * h))|
+      ≤ M4 * h^2 / 12 + M3 * h^2 / (3 * |x0 + (i:ℝ) * h|) := by
+  set r := x0 + (i:ℝ) * h with hrdef
+  have h2 := d2_fun_taylor f hf M4 hM4 r h hh
+  have h1 := d1_central_fun_taylor f (hf.of_le (by norm_num)) M3 hM3 r h hh
+  have e1 : x0 + ((i:ℝ) + 1) * h = r + h := by rw [hrdef]; ring
+  have e2 : x0 + ((i:ℝ) - 1) * h = r - h := by rw [hrdef]; ring
+  have split : sphLaplace false (fun k => x0 + (k:ℝ) * h) h (sampleFun f x0 h) i
+      - (iteratedDeriv 2 f r + 2 * iteratedDeriv 1 f r / r)
+      = ((f (r + h) - 2 * f r + f (r - h)) / (h * h) - iteratedDeriv 2 f r)
+        + 2 * (((f (r + h) - f (r - h)) / (2 * h) - iteratedDeriv 1 f r) / r) := by
+    simp only [sphLaplace, sampleFun, List.getD_cons_zero, Bool.false_eq_true, if_false]
+    push_cast
+    rw [e1, e2, ← hrdef]
+    field_simp
+    ring
+  rw [split]
+  have hrpos : 0 < |r| := abs_pos.mpr hr
+  have hb : |((f (r + h) - f (r - h)) / (2 * h) - iteratedDeriv 1 f r) / r| ≤ M3 * h^2 / (6 * |r|) := by
+    rw [abs_div, div_le_div_iff₀ hrpos (by positivity)]
+    have := mul_le_mul_of_nonneg_right h1 hrpos.le
+    nlinarith [this, hrpos]
+  calc _ ≤ |(f (r + h) - 2 * f r + f (r - h)) / (h * h) - iteratedDeriv 2 f r|
+          + |2 * (((f (r + h) - f (r - h)) / (2 * h) - iteratedDeriv 1 f r) / r)| := abs_add_le _ _
+    _ ≤ M4 * h^2 / 12 + M3 * h^2 / (3 * |r|) := by
+        rw [abs_mul, abs_of_pos (by norm_num : (0:ℝ) < 2)]
+        have e : M3 * h^2 / (3 * |r|) = 2 * (M3 * h^2 / (6 * |r|)) := by field_simp; ring
+        rw [e]
+        linarith
 
 end PdeVerif.Stencil
